@@ -473,13 +473,17 @@ ExactlyOncePerSleep ==
        /\ Cardinality(Created) <= 1 /\ (Created # {} => Completed = {})]_vars
 
 (* a step touches the set promises of exactly the sleeps it completes or creates: every other pending
-   entry stays (same time point, same identifier).  In particular a cancel()/remove() that returns
-   false / empty and a get_expired() that returns a time point have NO effect beyond shedding emptied
-   entries (CancelFalseNoEffect). *)
-CancelFalseNoEffect ==
+   entry stays (same time point, same identifier) -- LiveFrame; and a cancel()/remove() that returns
+   false / an empty promise has NO effect beyond shedding emptied entries from the top of the heap *)
+LiveFrame ==
     [][/\ \A e \in LiveEntries(heap) : e.k \notin Completed => e \in LiveEntries(heap')
-       /\ \A e \in LiveEntries(heap') : e \in LiveEntries(heap) \/ e.k \in Created
-       /\ (Completed = {} /\ Created = {} /\ ~gen'.stp) => (fut' = fut /\ gen' = gen /\ cst' = cst /\ (run >= 1 => rq' = rq))]_vars
+       /\ \A e \in LiveEntries(heap') : e \in LiveEntries(heap) \/ e.k \in Created]_vars
+NoEffect == fut' = fut /\ LiveEntries(heap') = LiveEntries(heap) /\ gen' = gen /\ cst' = cst /\ rq' = rq /\ now' = now
+CancelFalseNoEffect ==
+    [][\A id \in CancelIds :
+          (\/ Remove(id, 0)
+           \/ \E x \in Excs : Cancel(id, x, 0)
+           \/ \E x \in Excs, c \in 1..NC : CoCancel(c, id, x, 0)) => NoEffect]_vars
 
 (* the `now` values get_expired_lk can be called with in this state *)
 CallNows == IF Mode = "manual" THEN Nows ELSE {now}
